@@ -1,6 +1,7 @@
 import LaytheVerif.Model.Contract
 /-! `drv_scanner contract`: one scoping skeleton per line (prefix notation), prints what the resolver / compiler model
-(`Model/Contract.lean`) says: `errors=<n> unhoisted=<n> ok=<0|1> sep=<0|1> captured=<k>`.
+(`Model/Contract.lean`) says: `errors=<n> unhoisted=<n> ok=<0|1> same=<0|1> captured=<k>` (`same`: the two traversals perform the same events up
+to `define`s — `C15_traversals_same_events` says always 1).
 
     items := '[' item* ']'
     item  := 'u' N | 'l' N ID items | 'f' N ID (N ID)* ';' items | 'm' (N ID)* ';' items | 'b' items
@@ -64,7 +65,7 @@ def processLine (line : String) : String :=
   | some (prog, []) =>
     let r := resolve isGlobal (resolverEvents prog)
     let c := compileAfter isGlobal (resolverEvents prog) (compilerEvents prog)
-    s!"errors={r.errors} unhoisted={r.unhoisted} ok={if c.ok then 1 else 0} sep={if sep prog then 1 else 0} captured={r.captured.eraseDups.length}"
+    s!"errors={r.errors} unhoisted={r.unhoisted} ok={if c.ok then 1 else 0} same={if eraseDefs (Items.revs prog) == eraseDefs (Items.cevs prog) then 1 else 0} captured={r.captured.eraseDups.length}"
   | _ => "bad-input"
 
 partial def loop (h : IO.FS.Stream) (out : IO.FS.Stream) : IO Unit := do
